@@ -120,6 +120,13 @@ def witness_crate(d: Decl, extra_inputs=()):
             body.append('        { let i2 = %s::try_new(x.clone()).ok().unwrap().into_inner(); report("canonical", label, setting, format!("{:?}", %s::try_new(i2.clone()).map(|w| w.into_inner())), format!("Ok({:?})", i2), n); }\n' % (S, S))
         else:
             body.append('        { let i2 = %s::new(x.clone()).into_inner(); report("canonical", label, setting, format!("{:?}", %s::new(i2.clone()).into_inner()), format!("{:?}", i2), n); }\n' % (S, S))
+    # canonical chains (C11) through the other derived entry points: re-entering with the stored value
+    if d.family == 'string' and 'FromStr' in d.derives:
+        body.append('        { let i2 = %s; let e = format!("Ok({:?})", i2); report("canonical", &format!("{} via FromStr", label), setting, format!("{:?}", %s::from_str(i2.as_str()).map(|w| w.into_inner())), e, n); }\n'
+                    % (('%s::try_new(x.clone()).ok().unwrap().into_inner()' % S) if has_v else ('%s::new(x.clone()).into_inner()' % S), S))
+    if 'TryFrom' in d.derives:
+        body.append('        { let i2 = %s; let e = format!("Ok({:?})", i2); report("canonical", &format!("{} via TryFrom", label), setting, format!("{:?}", %s::try_from(i2.clone()).map(|w| w.into_inner())), e, n); }\n'
+                    % (('%s::try_new(x.clone()).ok().unwrap().into_inner()' % S) if has_v else ('%s::new(x.clone()).into_inner()' % S), S))
     body.append('        report("into_inner", label, setting, format!("{:?}", v.into_inner()), inner.clone(), n);\n')
     body.append('    }\n}\n')
     out.extend(body)
